@@ -121,6 +121,8 @@ struct St {
     /// when each node learned the peer's hardware address from a valid ARP/NDISC message
     learned: [Option<i64>; 2],
     frag_buf: usize,
+    /// IPv4 directed broadcast address of the common subnet (none in a /31, none on IPv6)
+    bcast: Option<IpAddr>,
     /// pending must-deliver expectation: (node, sock index, size)
     expect: Option<(usize, usize, usize, usize)>,
     incomplete_tx: [Option<u16>; 2],
@@ -259,6 +261,7 @@ pub fn run(tape: &mut Tape, props: Props, p: &Params, trace_on: bool) -> Outcome
         last_refused: [false; 2],
         learned: [None, None],
         frag_buf: 1500,
+        bcast: if v6 || subnet >= 31 { None } else { Some(IpAddr::V4([10, 0, 0, (0xffu32 >> (subnet as u32 - 24)) as u8])) },
         expect: None,
         incomplete_tx: [None, None],
         pending: [VecDeque::new(), VecDeque::new()],
@@ -370,7 +373,8 @@ fn on_arrive(w: &mut World, st: &mut St, to: usize, p: &Packet, alone: bool) -> 
             st.learned[to] = Some(w.now);
         }
     }
-    if ip.dst != st.addrs[to] {
+    let to_broadcast = !st.v6 && (ip.dst.is_limited_broadcast() || Some(ip.dst) == st.bcast);
+    if ip.dst != st.addrs[to] && !to_broadcast {
         return Ok(None);
     }
     // reference reassembly
@@ -462,7 +466,7 @@ fn on_arrive(w: &mut World, st: &mut St, to: usize, p: &Packet, alone: bool) -> 
     match &l4 {
         L4::Udp(u) => {
             // first matching socket in socket-set order
-            let idx = st.socks[to].iter().position(|s| s.kind == Kind::Udp && s.open && s.port == u.dport && (s.bound_addr.is_none() || s.bound_addr == Some(dst)));
+            let idx = st.socks[to].iter().position(|s| s.kind == Kind::Udp && s.open && s.port == u.dport && (s.bound_addr.is_none() || s.bound_addr == Some(dst) || to_broadcast));
             if let Some(i) = idx {
                 if was_frag {
                     st.socks[to][i].frag_arrivals.push((Arrival { payload: u.payload.clone(), src, sport: u.sport, dst }, frag_key.unwrap(), 0));
@@ -671,6 +675,9 @@ fn tx_oracles(w: &mut World, st: &mut St, n: usize, f: &TxFrame) -> Result<(), V
     }
     let Some(ip) = &p.ip else { return Ok(()) };
     if let Some(e) = &p.eth {
+        if (ip.dst.is_limited_broadcast() || Some(ip.dst) == st.bcast) && e.dst != [0xff; 6] && w.props.has("C16") {
+            return Err(viol("C16", "next-hop", "C16.l2dst/broadcast-datagram-not-to-the-broadcast-hardware-address", format!("IP broadcast {} sent to hardware address {:02x?}", ip.dst, e.dst)));
+        }
         if !ip.dst.is_multicast() && !ip.dst.is_limited_broadcast() && w.props.has("C16") {
             let is_nd = matches!(&p.l4, Some(L4::Icmp6(i)) if i.typ == 135 || i.typ == 136);
             if ip.dst == st.addrs[1 - n] {
@@ -1005,8 +1012,15 @@ fn do_send(w: &mut World, st: &mut St, n: usize, si: usize, tape: &mut Tape) -> 
             };
             (a, false)
         }
+        // UDP to the limited or the subnet-directed broadcast address: no neighbour needed, any socket on the port
+        // takes it (IPv4 only; a /31 has no directed broadcast)
+        10 if !v6 && s.kind == Kind::Udp => (IpAddr::V4([255, 255, 255, 255]), true),
+        9 if !v6 && s.kind == Kind::Udp && st.bcast.is_some() => (st.bcast.unwrap(), true),
         _ => (st.addrs[peer], true),
     };
+    if dst != st.addrs[peer] && resolvable {
+        w.stats.inc("dgram.send-to-broadcast");
+    }
     let seq = s.next_seq;
     match s.kind {
         Kind::Udp => {
